@@ -453,7 +453,13 @@ func finGen(r *Rand, i int, tier string) []string {
 			honest := fin(2, lb, mask, hs, ts, round, 0)
 			lines = append(lines, honest)
 			for k := r.Intn(4); k > 0; k-- {
-				switch r.Intn(9) {
+				switch r.Intn(11) {
+				case 9: // altered first on a cold cache, then the honest one, then the altered one again
+					bad := fin(2, lb, mask^(1<<uint(r.Intn(n))), hs, ts, round, 0)
+					lines = append(lines, "flush", bad, honest, bad)
+				case 10: // an altered certificate asked twice (a remembered failure must stay a failure)
+					bad := fin(2, lb, mask, hs, ts, round, 1+r.Intn(2))
+					lines = append(lines, bad, bad)
 				case 0:
 					lines = append(lines, honest) // cache hit
 				case 1:
